@@ -1,2 +1,212 @@
-import SyneTune.Model.SyncScheduler
-/- placeholder, theorems follow -/
+import SyneTune.Lemmas.SyncMore
+/-
+C13 (synchronous Hyperband part) — trial failures are contained.
+Property theorems only; `Reachable` as in `Props/C05.lean`.  `s.mgr.SlotAt id k p y`: slot
+`p` of rung `k` of bracket `id` holds `y = (trial_id, metric_val)`.
+-/
+namespace SyneTune.C13Sync
+open SyneTune SyneTune.Sync
+
+/-- **`on_trial_error` never raises and touches nothing but the failed trial's own slot.**
+At any point of any history: the call returns; if the trial is not pending nothing changes;
+otherwise its pending entry is removed, the pending entries of all other trials are the
+same, and every slot of every bracket except the slot the trial owed is unchanged. -/
+theorem sync_total (mode : Mode) (systems : List (List (Nat × Nat))) (s : Sched)
+    (h : Reachable mode systems s) (tid : Nat) :
+    ∃ s' calls, s.onError tid = .ok (s', calls) ∧
+      (alookup tid s.pending = none → s' = s) ∧
+      (∀ t', t' ≠ tid → alookup t' s'.pending = alookup t' s.pending) ∧
+      (∀ id sl, alookup tid s.pending = some (id, sl) →
+        ∀ (j k p : Nat) (y : Slot), s.mgr.SlotAt j k p y → (j, k, p) ≠ (id, sl.rungIndex, sl.slotIndex) →
+          s'.mgr.SlotAt j k p y) := by
+  have hI := (reachable_inv h).1
+  obtain ⟨s', calls, hs, _, hc⟩ := onError_spec hI tid
+  refine ⟨s', calls, hs, ?_, ?_, ?_⟩
+  · intro hnone
+    rcases hc with ⟨_, rfl⟩ | ⟨s1, hf, _⟩
+    · rfl
+    · obtain ⟨_, _, _, _, _, _, _, hlook, _⟩ := hf.ex
+      rw [hnone] at hlook; cases hlook
+  · intro t' hne
+    rcases hc with ⟨_, rfl⟩ | ⟨s1, _, rfl⟩
+    · rfl
+    · exact alookup_adel_ne _ _ _ hne
+  · intro id sl hlook j k p y hslot hne
+    rcases hc with ⟨hnone, _⟩ | ⟨s1, hf, rfl⟩
+    · rw [hnone] at hlook; cases hlook
+    · obtain ⟨id', sl', br, rg, x, br', np, hlook', hbr, hps, hrc, hmr, _⟩ := hf.ex
+      rw [hlook] at hlook'
+      simp only [Option.some.injEq, Prod.mk.injEq] at hlook'
+      obtain ⟨rfl, rfl⟩ := hlook'
+      have hl := pend_legal (List.mem_of_getElem? hbr) hps Metric.nan
+      apply (slotAt_after_report hbr hl hrc hmr).1 j k p y hslot
+      rw [← hps.ri]; exact hne
+
+/-- **After a failure the slot is occupied.**  The failed trial's slot holds
+`(trial, NaN)` afterwards and the trial is not pending any more — so the barrier theorem
+(`C05.barrier`) applies: the rung completes as soon as the other jobs have answered. -/
+theorem sync_no_wait (mode : Mode) (systems : List (List (Nat × Nat))) (s : Sched)
+    (h : Reachable mode systems s) (tid id : Nat) (sl : SlotInRung)
+    (hlook : alookup tid s.pending = some (id, sl)) :
+    ∃ s' calls, s.onError tid = .ok (s', calls) ∧
+      s'.mgr.SlotAt id sl.rungIndex sl.slotIndex ⟨some tid, some .nan⟩ ∧
+      alookup tid s'.pending = none := by
+  have hI := (reachable_inv h).1
+  obtain ⟨s', calls, hs, _, hc⟩ := onError_spec hI tid
+  refine ⟨s', calls, hs, ?_⟩
+  rcases hc with ⟨hnone, _⟩ | ⟨s1, hf, rfl⟩
+  · rw [hnone] at hlook; cases hlook
+  · obtain ⟨id', sl', br, rg, x, br', np, hlook', hbr, hps, hrc, hmr, _⟩ := hf.ex
+    rw [hlook] at hlook'
+    simp only [Option.some.injEq, Prod.mk.injEq] at hlook'
+    obtain ⟨rfl, rfl⟩ := hlook'
+    have hl := pend_legal (List.mem_of_getElem? hbr) hps Metric.nan
+    refine ⟨?_, alookup_adel_self _ _ hI.keys⟩
+    have := (slotAt_after_report hbr hl hrc hmr).2
+    rw [← hps.ri] at this
+    simpa [hps.tid] using this
+
+/-- **No slot waits for a job nobody owes.**  In every reachable state each slot that has
+been handed out and is not yet occupied belongs to a trial registered as pending for
+exactly this slot (which will report or fail). -/
+theorem no_orphan_slot (mode : Mode) (systems : List (List (Nat × Nat))) (s : Sched)
+    (h : Reachable mode systems s) (id : Nat) (br : Bracket) (rg : Rung) (p : Nat) (x : Slot)
+    (hbr : s.mgr.brackets[id]? = some br) (hrg : br.rungs[br.current]? = some rg)
+    (hx : rg.slots[p]? = some x) (hp : p < br.firstFree) (hxm : x.metric = none) :
+    ∃ t sl, alookup t s.pending = some (id, sl) ∧ sl.slotIndex = p ∧ sl.rungIndex = br.current ∧
+      sl.tid = some t := by
+  have hI := (reachable_inv h).1
+  obtain ⟨t, sl, hlook, hq⟩ := hI.owed id br rg p x hbr hrg hx hp hxm (by simp)
+  obtain ⟨b', rg', x', hb', hps, _⟩ := hI.pend t id sl hlook
+  rw [hbr] at hb'
+  have : b' = br := (Option.some.inj hb').symm
+  subst this
+  exact ⟨t, sl, hlook, hq, hps.ri, hps.tid⟩
+
+/-- **A slot, once occupied, never changes** (over any continuation of the history): in
+particular the NaN written for a failed trial stays where it is. -/
+theorem occupied_slots_stable (mode : Mode) (systems : List (List (Nat × Nat))) (s : Sched)
+    (h : Reachable mode systems s) (ops : List Op) (hl : LegalRun s ops)
+    (j k p : Nat) (y : Slot) (hy : s.mgr.SlotAt j k p y) (hocc : y.metric.isSome = true) :
+    (s.run ops).mgr.SlotAt j k p y :=
+  (run_more (reachable_inv h).1 ops hl).2.2 j k p y hy hocc
+
+/-- no completed rung of any bracket had fewer valid entries than the next rung has slots -/
+def NoShortfall (g : Manager) : Prop := ∀ br ∈ g.brackets, NoShortfallBr br
+
+/-- the full statement "a trial which is resumed has no failed (NaN) entry in any rung" -/
+def NoResumeFailed : Prop :=
+  ∀ (mode : Mode) (systems : List (List (Nat × Nat))) (s : Sched), Reachable mode systems s →
+    ∀ (tid : Nat) (c : Bool), tid ∉ s.configs →
+    ∀ (s' : Sched) (t lvl : Nat) (cl : Option Nat) (calls : List SCall),
+      s.suggest tid c = .ok (s', .resume t lvl cl, calls) →
+      ∀ br ∈ s.mgr.brackets, ∀ rg ∈ br.rungs, (⟨some t, some .nan⟩ : Slot) ∉ rg.slots
+
+/-- **A failed trial is not resumed — as long as no rung runs short of valid entries.**
+`_partial`: the full statement `NoResumeFailed` (without the hypothesis `NoShortfall`) is
+false of the code, see `no_resume_failed_counterexample`: `get_top_list` fills a rung with
+failed trials when the completed rung has fewer valid entries than the next rung has
+slots (DESIGN §6 F4). -/
+theorem no_resume_failed_partial (mode : Mode) (systems : List (List (Nat × Nat))) (s : Sched)
+    (h : Reachable mode systems s) (hns : NoShortfall s.mgr) (tid : Nat) (c : Bool) (hfresh : tid ∉ s.configs)
+    (s' : Sched) (t lvl : Nat) (cl : Option Nat) (calls : List SCall)
+    (hs : s.suggest tid c = .ok (s', .resume t lvl cl, calls)) :
+    ∀ br ∈ s.mgr.brackets, ∀ rg ∈ br.rungs, (⟨some t, some .nan⟩ : Slot) ∉ rg.slots := by
+  have hI := (reachable_inv h).1
+  obtain ⟨s2, sg, calls2, hs2, _, hf⟩ := suggest_spec hI tid c hfresh
+  rw [hs] at hs2
+  simp only [Except.ok.injEq, Prod.mk.injEq] at hs2
+  obtain ⟨rfl, rfl, rfl⟩ := hs2
+  obtain ⟨g1, id, sl, br1, rg, x, _, hcase, hh, _, hc⟩ := hf.job
+  rcases hc with ⟨t', hx, hsg, _⟩ | ⟨_, _, hsg, _⟩ | ⟨_, _, hsg, _⟩
+  · simp only [Suggestion.resume.injEq] at hsg
+    obtain ⟨rfl, _, _⟩ := hsg
+    obtain ⟨br0, rg0, x0, hjs⟩ := jobCase_struct hI.mwf hcase
+    -- the bracket handed out is an old one: it holds the id `t`
+    have hb1 : br1 = bump br0 := by
+      have := hjs.atId; rw [hh.hbr] at this; exact Option.some.inj this
+    subst hb1
+    have hrg0 : br0.rungs[br0.current]? = some rg := hh.hrg
+    have hid0 : br0.HasId t := (handed_hasId hh t hx).1
+    have hold : s.mgr.brackets[id]? = some br0 := by
+      rcases hjs.old with ho | ⟨_, hno, _⟩
+      · exact ho
+      · exact absurd hid0 (hno t)
+    obtain ⟨spec, _, hb, _⟩ := hI.mwf.wf id br0 hold
+    intro br hbr rgy hrgy hmem
+    obtain ⟨j, hj⟩ := List.mem_iff_getElem?.mp hbr
+    obtain ⟨k, hk⟩ := List.mem_iff_getElem?.mp hrgy
+    obtain ⟨i, hi⟩ := List.mem_iff_getElem?.mp hmem
+    have hidy : br.HasId t := ⟨rgy, hrgy, (mem_ids_iff rgy t).mpr ⟨i, _, hi, rfl⟩⟩
+    have hji : j = id := hI.disjoint j id br br0 t hj hold hidy hid0
+    subst hji
+    rw [hold] at hj
+    have : br = br0 := (Option.some.inj hj).symm
+    subst this
+    have hklt := getElem?_lt hk
+    have hkle : k ≤ br.current := by have := hb.len; omega
+    by_cases hkc : k = br.current
+    · subst hkc
+      rw [hrg0] at hk
+      have : rgy = rg := (Option.some.inj hk).symm
+      subst this
+      have hnd := hb.nodup rgy hrgy
+      have := nodup_idx rgy.slots t hnd i sl.slotIndex _ x hi hh.hsl rfl hx
+      subst this
+      rw [hh.hsl] at hi
+      have hxe : x = ⟨some t, some Metric.nan⟩ := Option.some.inj hi
+      have := hh.empty
+      rw [hxe] at this; cases this
+    · exact no_nan_below hb (hns br hbr) t br.current rg hrg0
+        ((mem_ids_iff rg t).mpr ⟨sl.slotIndex, x, hh.hsl, hx⟩) k rgy (by omega) hk hmem
+  · cases hsg
+  · cases hsg
+
+/-- the history of the counterexample: rung system `[(2,1),(1,2)]`, both trials of the base
+rung fail -/
+def witnessOps : List Op := [.suggest 0 true, .suggest 1 true, .error 0, .error 1]
+
+/-- after both trials have failed, the next `suggest` resumes the failed trial 0 -/
+theorem witness_resumes_failed :
+    ∃ s0 s', Sched.init .min [[(2, 1), (1, 2)]] false false = .ok s0 ∧ LegalRun s0 witnessOps ∧
+      (s0.run witnessOps).suggest 2 true = .ok (s', .resume 0 2 none, []) ∧
+      (s0.run witnessOps).mgr.brackets.map (fun b => b.rungs.map (fun r => r.slots)) =
+        [[[⟨some 0, some .nan⟩, ⟨some 1, some .nan⟩], [⟨some 0, none⟩]]] ∧
+      (s0.run witnessOps).configs = [0, 1] :=
+  ⟨_, _, rfl, by decide +kernel, rfl, by decide +kernel, by decide +kernel⟩
+
+/-- **The full statement is false of the code** (F4): with the rung system `[(2,1),(1,2)]`
+and both trials of the base rung failing, `get_top_list` finds no valid entry for the one
+slot of the next rung, promotes the failed trial 0, and the next `suggest` resumes it.
+The harness replays this history on the real code (`props/c05.py: WITNESS`). -/
+theorem no_resume_failed_counterexample : ¬ NoResumeFailed := by
+  intro hfull
+  obtain ⟨s0, s', hinit, hlegal, hsug, hslots, hcfg⟩ := witness_resumes_failed
+  have hreach : Reachable .min [[(2, 1), (1, 2)]] (s0.run witnessOps) :=
+    ⟨false, false, s0, witnessOps, hinit, hlegal, rfl⟩
+  have hfresh : 2 ∉ (s0.run witnessOps).configs := by rw [hcfg]; decide
+  have hmem : ∃ br ∈ (s0.run witnessOps).mgr.brackets, ∃ rg ∈ br.rungs, (⟨some 0, some .nan⟩ : Slot) ∈ rg.slots := by
+    cases hb : (s0.run witnessOps).mgr.brackets with
+    | nil => rw [hb] at hslots; cases hslots
+    | cons br rest =>
+      rw [hb] at hslots
+      simp only [List.map_cons, List.cons.injEq] at hslots
+      refine ⟨br, by simp, ?_⟩
+      cases hr : br.rungs with
+      | nil => rw [hr] at hslots; simp at hslots
+      | cons rg rrest =>
+        rw [hr] at hslots
+        simp only [List.map_cons, List.cons.injEq] at hslots
+        exact ⟨rg, by simp, by rw [hslots.1.1]; simp⟩
+  obtain ⟨br, hbr, rg, hrg, hin⟩ := hmem
+  exact hfull .min [[(2, 1), (1, 2)]] _ hreach 2 true hfresh s' 0 2 none [] hsug br hbr rg hrg hin
+
+/-! ### non-vacuity -/
+
+/-- a reachable state with a pending trial whose failure is then contained -/
+example :
+    ∃ s0, Sched.init .max [[(3, 1), (1, 3)]] true false = .ok s0 ∧
+      alookup 1 (s0.run [.suggest 0 true, .suggest 1 true]).pending = some (0, ⟨0, 1, 1, some 1, none⟩) :=
+  ⟨_, rfl, by decide +kernel⟩
+
+end SyneTune.C13Sync
